@@ -1170,3 +1170,75 @@ func runC06Seq(h *H) {
 		h.Stat("seq.blocks")
 	}
 }
+
+// C07 with values beyond the reader's 1 MiB growth step: cuts inside a long String value at the end of a block
+func init() { runners["c07long"] = runC07Long }
+
+func runC07Long(h *H) {
+	for _, n := range []int{1<<20 + 1<<16, 2<<20 + 5} {
+		long := make([]byte, n)
+		for j := range long {
+			long[j] = byte('a' + j%23)
+		}
+		id := new(proto.ColUInt32)
+		pay := new(proto.ColStr)
+		id.Append(1)
+		id.Append(2)
+		pay.Append("first")
+		pay.AppendBytes(long)
+		var buf proto.Buffer
+		blk := proto.Block{Columns: 2, Rows: 2}
+		if err := blk.EncodeBlock(&buf, proto.Version, []proto.InputColumn{{Name: "id", Data: id}, {Name: "payload", Data: pay}}); err != nil {
+			h.Emit(fmt.Sprintf("longcut %d", n), "-", "FAIL:encode failed")
+			continue
+		}
+		w := buf.Buf
+		var cuts []int
+		for c := 0; c < 80 && c < len(w); c++ {
+			cuts = append(cuts, c)
+		}
+		for c := 80; c < len(w); c += 65521 {
+			cuts = append(cuts, c)
+		}
+		for c := len(w) - 200; c < len(w); c++ {
+			cuts = append(cuts, c)
+		}
+		for _, auto := range []bool{false, true} {
+			accepted, panicked, first := 0, 0, -1
+			for _, c := range cuts {
+				func() {
+					defer func() {
+						if p := recover(); p != nil {
+							panicked++
+							if first < 0 {
+								first = c
+							}
+						}
+					}()
+					var res proto.Results
+					var target proto.Result
+					if auto {
+						target = res.Auto()
+					} else {
+						res = proto.Results{{Name: "id", Data: new(proto.ColUInt32)}, {Name: "payload", Data: new(proto.ColStr)}}
+						target = res
+					}
+					var b2 proto.Block
+					if err := b2.DecodeBlock(proto.NewReader(bytes.NewReader(w[:c])), proto.Version, target); err == nil {
+						accepted++
+						if first < 0 {
+							first = c
+						}
+					}
+				}()
+			}
+			oracle := "ok"
+			if accepted+panicked > 0 {
+				oracle = fmt.Sprintf("FAIL:block ending in a %d-byte String value: of %d proper prefixes %d were accepted as a complete block and %d panicked (first at %d of %d bytes, auto=%v)",
+					n, len(cuts), accepted, panicked, first, len(w), auto)
+			}
+			h.Emit(fmt.Sprintf("longcut %d auto=%v cuts=%d", n, auto, len(cuts)), "-", oracle)
+			h.Stat("cut.longvalue")
+		}
+	}
+}
